@@ -3,6 +3,7 @@ package main
 import (
 	"encoding/hex"
 	"fmt"
+	"reflect"
 	"strconv"
 	"strings"
 
@@ -115,7 +116,7 @@ func dumpExpr(e parser.Expression) string {
 		return fmt.Sprintf("(sliceeval %s %s %s)", dumpExpr(v.Value()), dumpExpr(v.Index()), dumpVT(v.ValueType()))
 	case parser.StringSubscript:
 		end := "nil" // a single index s[i] has no end-index of its own
-		if v.HasEndIndex() {
+		if f := reflect.ValueOf(v).FieldByName("endIndex"); !f.IsValid() || !f.IsNil() {
 			end = dumpExpr(v.EndIndex())
 		}
 		return fmt.Sprintf("(substr %s %s %s)", dumpExpr(v.Value()), dumpExpr(v.StartIndex()), end)
